@@ -224,10 +224,37 @@ def install(rec):
 
     # ---- exact routes ---------------------------------------------------------
     def post_le_exact(st, out, self, G, where, optimize="auto-hq", normalized=True, rehearse=False, **k):
+        if normalized == "return":
+            # documented: (unnormalised expectation, norm) returned separately
+            try:
+                e, n = out
+            except Exception:
+                rec.check("expectation", "value", False, mech="expectation:local_expectation_exact:return_form", detail={})
+                return
+            chk_expect("local_expectation_exact[return]", st, e, G, where, False, True, {"normalized": "return"},
+                       ("le_exact_return", len(as_where(where, st))))
+            want = float(np.vdot(st["v"], st["v"]).real)
+            rec.check("expectation", "norm", abs(complex(np.asarray(to_numpy(n))) - want) <= tolerance(st) * max(want, 1e-300) * 10,
+                      mech="expectation:local_expectation_exact:returned_norm", detail={"got": repr(n), "want": want},
+                      sig=("le_exact_return_norm",))
+            return
         chk_expect("local_expectation_exact", st, out, G, where, normalized, True, {}, ("le_exact", len(as_where(where, st)), normalized))
     attach.install(V, "local_expectation_exact", attach.monitored(rec, "local_expectation_exact", common_pre, post_le_exact, fam="c13"))
 
     def post_ptr_exact(st, out, self, where, optimize="auto-hq", normalized=True, rehearse=False, get="matrix", **k):
+        if normalized == "return":
+            try:
+                rho, n = out
+            except Exception:
+                return
+            if get in ("matrix", "array"):
+                chk_rdm("partial_trace_exact[return]", st, rho, where, False, True, {"get": get},
+                        ("ptr_exact_return", len(as_where(where, st)), get))
+            return
+        if get == "array":
+            chk_rdm("partial_trace_exact[array]", st, out, where, normalized, True, {"get": get},
+                    ("ptr_exact_array", len(as_where(where, st)), normalized))
+            return
         if get not in ("matrix", None):
             return
         chk_rdm("partial_trace_exact", st, out, where, normalized, True, {}, ("ptr_exact", len(as_where(where, st)), normalized))
@@ -353,6 +380,9 @@ def install(rec):
     attach.install(c1.MatrixProductState, "compute_local_expectation_via_envs", attach.monitored(
         rec, "compute_local_expectation_via_envs", common_pre,
         post_cle("compute_local_expectation_via_envs", lambda self, st, a, k: not self.cyclic), fam="c13"))
+    attach.install(c1.MatrixProductState, "compute_local_expectation_canonical", attach.monitored(
+        rec, "compute_local_expectation_canonical", common_pre,
+        post_cle("compute_local_expectation_canonical", lambda self, st, a, k: not self.cyclic), fam="c13"))
     attach.install(c1.MatrixProductState, "compute_local_expectation", attach.monitored(
         rec, "MPS.compute_local_expectation", common_pre,
         post_cle("MPS.compute_local_expectation", lambda self, st, a, k: not self.cyclic), fam="c13"))
@@ -462,9 +492,13 @@ def wl_routes(rng, rec, tier):
                                  "sloop", "gloop", "compute_exact", "compute_cluster"])
         calls.append(route)
         if route == "exact":
-            gen.attempt(x.local_expectation_exact, G, where, normalized=normalized)
+            gen.attempt(x.local_expectation_exact, G, where,
+                        normalized=normalized if rng.random() < 0.8 else "return")
         elif route == "ptr_exact":
-            gen.attempt(x.partial_trace_exact, where, normalized=normalized)
+            kw_ = {}
+            if rng.random() < 0.3:
+                kw_["get"] = "array"
+            gen.attempt(x.partial_trace_exact, where, normalized=normalized if rng.random() < 0.8 else "return", **kw_)
         elif route in ("cluster", "ptr_cluster", "compute_cluster"):
             kw = {"max_distance": int(gen.choice(rng, [0, 1, 2, 8, 8])), "normalized": normalized}
             y = x
@@ -532,11 +566,20 @@ def wl_lattice(rng, rec, tier):
         if not terms:
             terms[(0,)] = gen.rand_array(rng, (2, 2), "complex128")
         kw = {"normalized": bool(rng.random() < 0.7), "return_all": bool(rng.random() < 0.5)}
-        m = gen.choice(rng, ["envs", "canonical", "dispatch"])
+        m = gen.choice(rng, ["envs", "canonical", "dispatch", "canonical_info"])
         if m == "envs":
             gen.attempt(x.compute_local_expectation_via_envs, terms, **kw)
         elif m == "canonical":
             gen.attempt(x.compute_local_expectation_canonical, terms, **kw)
+        elif m == "canonical_info":
+            # one user supplied record reused across calls (default inplace=False)
+            info = {}
+            for _ in range(3):
+                sub = {w_: g_ for w_, g_ in terms.items() if rng.random() < 0.7} or dict(terms)
+                if rng.random() < 0.5:
+                    gen.attempt(x.compute_local_expectation_canonical, sub, info=info, **kw)
+                else:
+                    gen.attempt(x.compute_local_expectation, sub, method="canonical", info=info, **kw)
         else:
             gen.attempt(x.compute_local_expectation, terms, method=gen.choice(rng, ["canonical", "envs"]), **kw)
         return {"kind": "mps", "L": L, "m": m, "n": len(terms)}
